@@ -151,6 +151,23 @@ impl Prop for C15 {
     fn signal_is_violation() -> bool {
         true
     }
+    fn extra(tier: Tier, seed: u64, ev: &mut ExtraEvidence) -> Vec<Violation> {
+        if tier != Tier::Thorough {
+            return Vec::new();
+        }
+        crate::fuzz::run(
+            &crate::fuzz::Campaign {
+                property: "C15",
+                target: "cq_memory",
+                asan: true,
+                runs: 150_000,
+                max_len: 600,
+                seed,
+                seeds: crate::fuzz::random_seeds(seed, 24, 600),
+            },
+            ev,
+        )
+    }
 }
 
 #[allow(dead_code)]
